@@ -178,7 +178,7 @@ Proof.
   - destruct (data_of s o); [destruct (save_direct _ o)|]; reflexivity.
   - destruct (save_direct _ o); reflexivity.
   - reflexivity.
-  - destruct (data_of s o); reflexivity.
+  - destruct (data_of s o) as [d|]; [destruct (kv_get d k); [destruct (save_direct _ o)|]|]; reflexivity.
   - destruct (logout s o); reflexivity.
 Qed.
 
